@@ -51,23 +51,27 @@ METHODS = ["auto", "linprog", "highs", "highs-ds", "highs-ipm", "SLSQP", "trust-
            "Nelder-Mead", "COBYLA", "TNC", "Powell"]
 
 
-def routes(dom):
+BOUNDS = [(-3, 7), (-2.5, 6.5), (2, 2), (None, 4.5)]      # integral, fractional, pinned, one-sided
+
+
+def routes(dom, bnd=(-3, 7)):
     """name -> (list of Variable objects of the declared container, a vector-like handle to build a model from)"""
     from optyx import Variable, VectorVariable, MatrixVariable
     from optyx.core.matrices import diag_matrix, diag
     out = {}
-    z = Variable("z", lb=-3, ub=7, domain=dom)
+    lb_, ub_ = bnd
+    z = Variable("z", lb=lb_, ub=ub_, domain=dom)
     out["scalar"] = ([z], None, z)
-    x = VectorVariable("x", 3, lb=-3, ub=7, domain=dom)
+    x = VectorVariable("x", 3, lb=lb_, ub=ub_, domain=dom)
     out["vector"] = (list(x), x, None)
     out["slice"] = (list(x[1:3]), x[1:3], None)
     out["reversed_slice"] = (list(x[::-1]), x[::-1], None)
-    M = MatrixVariable("M", 2, 3, lb=-3, ub=7, domain=dom)
+    M = MatrixVariable("M", 2, 3, lb=lb_, ub=ub_, domain=dom)
     out["matrix_row"] = (list(M[1, :]), M[1, :], None)
     out["matrix_col"] = (list(M[:, 2]), M[:, 2], None)
     out["transpose_row"] = (list(M.T[0, :]), M.T[0, :], None)
     out["submatrix_row"] = (list(M[0:2, 1:3][1, :]), M[0:2, 1:3][1, :], None)
-    S = MatrixVariable("S", 3, 3, lb=-3, ub=7, domain=dom, symmetric=True)
+    S = MatrixVariable("S", 3, 3, lb=lb_, ub=ub_, domain=dom, symmetric=True)
     out["symmetric_col"] = (list(S[:, 0]), S[:, 0], None)
     out["diagonal"] = (list(S.diagonal()), S.diagonal(), None)
     out["diag_fn"] = (list(diag(S)), diag(S), None)
@@ -86,6 +90,7 @@ def run(rep: vk.Report):
     relaxed_diffs = 0
     relaxed_cmp = 0
     ok = lambda call: stubs.mres(x=np.ones(len(call["x0"])), fun=1.0)
+    seam_bad = []
 
     def observe(P, m, strict, where):
         """One solve under stubs: what the caller sees (exception with names / warning with names / solver reached)."""
@@ -101,6 +106,17 @@ def run(rep: vk.Report):
                 ncalls = len(S.minimize_calls) + len(S.linprog_calls)
                 if ncalls == 0:
                     return "PyNoVariables"
+                # the relaxation that reaches the solver keeps the DECLARED box of every variable ([0,1] for binaries)
+                call = (S.linprog_calls or S.minimize_calls)[0]
+                if call.get("bounds") is not None:
+                    fin = lambda t: None if t is None or not np.isfinite(t) else float(t)
+                    got = [(fin(b[0]), fin(b[1])) for b in call["bounds"]]
+                    want = [(fin(v.lb), fin(v.ub)) for v in P.variables]
+                    if got != want and len(seam_bad) < 10:
+                        seam_bad.append(1)
+                        rep.violation({"kind": "relaxation", "obligation": "the relaxed problem handed to the solver has the declared bounds",
+                                       "witness": {"where": where, "method": m, "strict": strict, "variables": [v.name for v in P.variables],
+                                                   "domains": [v.domain for v in P.variables], "declared": want, "handed_over": got}}, concrete=True)
                 return f"(PyRan {ser.lst(ser.s(n) for n in names)} {'true' if S.linprog_calls else 'false'})"
             except IntegerVariableError as ex:
                 ncalls = len(S.minimize_calls) + len(S.linprog_calls)
@@ -113,8 +129,8 @@ def run(rep: vk.Report):
             except NoObjectiveError:
                 return "PyNoObjective"
 
-    def build(dom, rname, linear):
-        elems, vec, scal = routes(dom)[rname]
+    def build(dom, rname, linear, bnd=(-3, 7)):
+        elems, vec, scal = routes(dom, bnd)[rname]
         c = Variable("c_cont", lb=0, ub=5)
         if scal is not None:
             body = scal * 2 + c if linear else scal ** 2 + c
@@ -131,17 +147,21 @@ def run(rep: vk.Report):
         auto_nlp = P._auto_select_method()
         term = (f"({'true' if is_lp else 'false'}, {ser.s(auto_nlp)}, {ser.lst('(' + ser.s(k) + ', ' + ser.s(d) + ')' for k, d in doms.items())}, "
                 f"{ser.lst(ser.s(n) for n in V)}, {ser.s(m)}, {'true' if strict else 'false'}, {seen})")
-        cases.add(term, dict(meta, seen=seen), kinds=kinds)
+        D = [v.name for v in P.variables if v.domain != "continuous"]
+        cases.add(term, dict(meta, seen=seen, non_continuous_variables=D), kinds=kinds)
 
-    for dom, rname, linear, m, strict in itertools.product(["integer", "binary"], list(routes("integer")),
-                                                           [True, False], METHODS, [True, False]):
-        P, elems = build(dom, rname, linear)
+    for bnd, dom, rname, linear, m, strict in itertools.product(BOUNDS, ["integer", "binary"], list(routes("integer")),
+                                                                [True, False], METHODS, [True, False]):
+        if bnd != BOUNDS[0] and (m not in ("auto", "linprog", "highs-ds", "SLSQP", "L-BFGS-B") or rname not in ("scalar", "vector", "matrix_col", "diagonal")):
+            continue                       # the full route x method product is run for the first declaration only
+        P, elems = build(dom, rname, linear, bnd)
         for v in elems:
             if v.domain == "binary" and (v.lb, v.ub) != (0.0, 1.0):
                 binary_bad.append((rname, v.name, v.lb, v.ub))
         seen = observe(P, m, strict, rname)
-        add_case(P, m, strict, seen, {"domain": dom, "route": rname, "linear": linear, "method": m, "strict": strict, "history": []},
-                 {dom, rname, str(linear), m, str(strict)})
+        add_case(P, m, strict, seen, {"domain": dom, "route": rname, "linear": linear, "method": m, "strict": strict, "history": [],
+                                      "declared_bounds": list(bnd)},
+                 {dom, rname, str(linear), m, str(strict), str(bnd)})
     # strict / the warning are per CALL, not per problem: the same Problem solved repeatedly with changing flags and methods;
     # every solve of the history is compared with the model's answer for that call alone
     hist_routes = ["scalar", "vector", "reversed_slice", "matrix_col", "symmetric_col"]
@@ -164,7 +184,12 @@ def run(rep: vk.Report):
         meta = cases.meta[i]
         model = cases.model_answer(i, lambda t: "match " + t + " with (is_lp, a, doms, V, m, strict, _) => "
                                    "solve_front true is_lp a (store_of doms) V m strict end")
-        concrete = meta["strict"] and meta["seen"].startswith("(PyRan")
+        # independent of the model: with D the non-continuous variables of the problem (read off the declarations),
+        # a solver run under strict, or an error / warning naming anything but exactly D, is a failing input in itself
+        D = meta.get("non_continuous_variables", [])
+        named = re.findall(r'"([^"]*)"', meta["seen"].split(")")[0]) if meta["seen"].startswith(("(PyInteger", "(PyRan")) else None
+        concrete = bool(D) and ((meta["strict"] and meta["seen"].startswith("(PyRan"))
+                                or (named is not None and named != D))
         rep.violation({"kind": "correspondence", "obligation": "solve front (validation, gate) = model solve_front", "meta": meta,
                        "model": model, "witness": meta if concrete else None}, concrete=concrete)
     for b in binary_bad[:10]:
@@ -177,7 +202,7 @@ def run(rep: vk.Report):
             for linear in [True, False]:
                 if m == "linprog" and not linear:
                     continue
-                x = VectorVariable("q", 3, lb=0, ub=4, domain=dom)
+                x = VectorVariable("q", 3, lb=0.4, ub=2.5, domain=dom)
                 y = VectorVariable("q", 3, lb=x[0].lb, ub=x[0].ub)      # the relaxation: same names and bounds, continuous
                 def build(v):
                     obj = (v.sum() * -1 + 0) if linear else ((v - 0.4) ** 2).sum()
